@@ -55,13 +55,13 @@ func runC06(c c06Case) *ev.Violation {
 	}
 	F, Q := ref.F(com), ref.Q(com)
 	ws := quorum.GetWeights(com)
-	if W.Sign() > 0 {
+	if W.Sign() > 0 { // f of a committee without weight is left open (floor(-1/3) is not a weight)
 		if f := bigU(quorum.CalcByzMaxWeight(ws)); f.Cmp(F) != 0 {
 			return viol("calcF", "W=%s: CalcByzMaxWeight=%s, floor((W-1)/3)=%s", W, f, F)
 		}
-		if q := bigU(quorum.CalcQuorumWeight(ws)); q.Cmp(Q) != 0 {
-			return viol("calcQ", "W=%s: CalcQuorumWeight=%s, W-f=%s", W, q, Q)
-		}
+	}
+	if q := bigU(quorum.CalcQuorumWeight(ws)); q.Cmp(Q) != 0 { // W=0: Q=1, nothing passes the quorum test
+		return viol("calcQ", "W=%s: CalcQuorumWeight=%s, W-f=%s", W, q, Q)
 	}
 	A, B := idsOf(c.A), idsOf(c.B)
 	qa, wa, _ := quorum.IsQuorum(A, com)
@@ -135,10 +135,10 @@ func runC06(c c06Case) *ev.Violation {
 		return viol("padding", "duplicates / non-members / zero-weight members changed a result (quorum %v->%v honest %v->%v weight %d->%d)", qa, qp, ha, hp, wa, wp)
 	}
 	// agreement with the reference tests themselves (exact thresholds)
+	if qa != ref.IsQuorum(A, com) {
+		return viol("threshold", "IsQuorum(A)=%v but weight %s vs Q=%s", qa, refWA, Q)
+	}
 	if W.Sign() > 0 {
-		if qa != ref.IsQuorum(A, com) {
-			return viol("threshold", "IsQuorum(A)=%v but weight %s vs Q=%s", qa, refWA, Q)
-		}
 		if ha != ref.HasHonest(A, com) {
 			return viol("threshold", "HasHonest(A)=%v but weight %s vs F=%s", ha, refWA, F)
 		}
